@@ -95,7 +95,7 @@ static bool TokMatch(const std::string & t, const std::string & n)
    if (t == "~0")    return n != "0";
    if (t == "\\a")   return n == "a";
    if (t == "(a|c)") return n == "a";
-   if (t == "b,a")   return (n == "a")||(n == "b");
+   if ((t == "b,a")||(t == "b,\\a")) return (n == "a")||(n == "b");
    if (t == "~a")    return n != "a";
    return t == n;
 }
@@ -209,7 +209,7 @@ static std::string JudgeTraversal(const std::string & mode, const std::vector<SV
 static std::vector<SV> g_menu;
 static void BuildMenu()
 {
-   const char * U8[] = {"a", "b", "\\a", "*", "?", "(a|c)", "b,a", "~a"}; const char * C5[] = {"a", "b", "*", "b,a", "~a"}; const char * D3[] = {"a", "*", "b,a"};
+   const char * U8[] = {"a", "b", "\\a", "*", "?", "(a|c)", "b,a", "~a"}; const char * C5[] = {"a", "b", "*", "b,a", "~a"}; const char * D3[] = {"a", "*", "b,\\a"};
    #define P1(a) {SV p; p.push_back(a); g_menu.push_back(p);}
    #define P2(a,b) {SV p; p.push_back(a); p.push_back(b); g_menu.push_back(p);}
    #define P3(a,b,c) {SV p; p.push_back(a); p.push_back(b); p.push_back(c); g_menu.push_back(p);}
@@ -304,11 +304,11 @@ struct Net
 // the clause table as the real StringMatcher sees it: one row per (token, level)
 static mj::Value ClauseTable(const World & w, int nsess)
 {
-   static const char * lv0[] = {"*", "h"}; static const char * lv1[] = {"*", "0", "1", "2", "3", "1,0", "<0-1>", "~0"}; static const char * lv2[] = {"*", "a", "b", "\\a", "?", "(a|c)", "b,a", "~a"};
+   static const char * lv0[] = {"*", "h"}; static const char * lv1[] = {"*", "0", "1", "2", "3", "1,0", "<0-1>", "~0"}; static const char * lv2[] = {"*", "a", "b", "\\a", "?", "(a|c)", "b,a", "~a", "b,\\a"};
    mj::Value rows = mj::Value::Arr();
    for (int lvl=0; lvl<3; lvl++)
    {
-      const char ** toks = (lvl == 0) ? lv0 : ((lvl == 1) ? lv1 : lv2); const int nt = (lvl == 0) ? 2 : 8;
+      const char ** toks = (lvl == 0) ? lv0 : ((lvl == 1) ? lv1 : lv2); const int nt = (lvl == 0) ? 2 : ((lvl == 1) ? 8 : 9);
       SV names; if (lvl == 0) names.push_back("h"); else if (lvl == 1) {for (int i=0; i<nsess; i++) {char c[2] = {(char)('0'+i), 0}; names.push_back(c);}} else {names.push_back("a"); names.push_back("b");}
       for (int t=0; t<nt; t++)
       {
@@ -640,7 +640,7 @@ static Pat RandomKey(std::mt19937 & rng, int nsess)
 {
    const std::string r = SessName((int)(rng()%nsess));
    Pat p;
-   switch (rng()%19)
+   switch (rng()%20)
    {
       case 0: p = MkPat(false, "a"); break;            case 1: p = MkPat(false, "*"); break;             case 2: p = MkPat(false, "a", "*"); break;
       case 3: p = MkPat(false, "*", "b"); break;       case 4: p = MkPat(false, "b", "a"); break;        case 5: p = MkPat(false, "b,a"); break;
@@ -648,6 +648,7 @@ static Pat RandomKey(std::mt19937 & rng, int nsess)
       case 9: p = MkPat(false, "(a|c)", "a"); break;   case 10: p = MkPat(false, "*", "*"); break;       case 11: p = MkPat(true, "*", "*", "a"); break;
       case 12: p = MkPat(true, "*", r.c_str()); break; case 13: p = MkPat(true, "*", r.c_str(), "*"); break; case 14: p = MkPat(true, "h", "*", "b"); break;
       case 15: p = MkPat(true, "*", "<0-1>", "a"); break; case 16: p = MkPat(true, "*"); break;         case 17: p = MkPat(true, "*", "~0", "*"); break;
+      case 18: p = MkPat(false, "*", "b,\\a"); break;
       default: p = MkPat(true, "*", "1,0", "b,a"); break;
    }
    if (NormCl(p).size() >= 3) p.f = (int)(rng()%3);
